@@ -274,11 +274,11 @@ func baseFlatten[T any](acc []T, slice any) ([]T, error) {
 // Union computes the union of the passed\-in slice and returns an
 // ordered list of unique items that are present in one or more of the slices.
 func Union[T comparable](slice any) ([]T, error) {
-	var err error
-	if flatten, err := baseFlatten([]T{}, slice); err == nil {
-		return Unique(flatten), nil
+	flatten, err := baseFlatten([]T{}, slice)
+	if err != nil {
+		return nil, err
 	}
-	return nil, err
+	return Unique(flatten), nil
 }
 
 // Intersection computes the list of values that are the intersection of all the slices.
